@@ -837,6 +837,18 @@ func (d *Driver) nextRaw() Event {
 				return Event{Kind: "AddVstorage", Creator: n, Size: []int64{100000, 500000, 1000000}[d.R.Intn(3)]}
 			default:
 				n := d.pick(d.P.Nodes)
+				// (a node that never pledged anything - no pledge record at all - takes its turns as well)
+				for _, x := range d.St.Nodes {
+					has := false
+					for _, pl := range d.St.Pledges {
+						if pl.A == x.A {
+							has = true
+						}
+					}
+					if !has && d.R.Intn(2) == 0 {
+						n = x.A
+					}
+				}
 				val := ""
 				for _, x := range d.St.Nodes {
 					if x.A == n {
